@@ -17,7 +17,8 @@
    38).  That Go's strconv.AppendFloat, time.Unix, Time.AppendFormat and
    net.IP.String themselves return (do not panic) is the assumption made by
    modelling them as functions. *)
-From Verif Require Import Base.Prelude Base.CborSpec Enc.CborEnc Enc.CborDec Proofs.CborEncP Proofs.CborDecP Proofs.Cbor2JsonP.
+From Verif Require Import Base.Prelude Base.CborSpec Base.GoEff Enc.GoStd Enc.CborEnc Enc.CborDec Enc.DecStd Proofs.CborEncP Proofs.CborDecP Proofs.Cbor2JsonP Proofs.SrcDecP.
+From Verif Require Gen.DecSrc.
 Open Scope Z_scope.
 
 (* termination: the fuel 2*len+2 always suffices; and no runtime panic:
@@ -102,6 +103,89 @@ Theorem C17_encoder_events_decode : forall Orc f64_of_time f64_of_dur,
   Forall2 (decodes Orc) (map (enc_event f64_of_time f64_of_dur) evs) js.
 Proof. exact events_decode. Qed.
 
+(* ---- the same statements about the SOURCE ----
+   Gen/DecSrc.v is regenerated on every run by harness/cmd/srcgen from /repo/internal/cbor/decode_stream.go
+   (17 functions: readNBytes, readByte, decodeIntAdditionalType, decodeInteger, decodeFloat, decodeStringComplex,
+   decodeString, decodeUTF8String, appendQuotedJSON, array2Json, map2Json, decodeTagData, decodeSimpleFloat,
+   cbor2JsonOneObject, moreBytesToRead, Cbor2JsonManyObjects with its deferred recover, binaryFmt) into state
+   transformers over (remaining input, push-back byte, output written) - Base/GoEff.v.  Proofs/SrcDecP.v proves every
+   one of them equal to its hand-model counterpart.  [run_source Orc fo F bs] is what a caller of the TRANSLATED
+   Cbor2JsonManyObjects observes on input bs with fuel F: [Some (bytes written, FOk | FErr kind)], or [None] for a
+   run-time panic / translation out of fuel / an operation outside the modelled reader contract.
+   Premises: the input fits in memory and consists of bytes; the float-text oracle of the translation (what
+   strconv.AppendFloat answers) is the one of the hand model ([orc_agree]).
+   Not translated, called through the hand model's definition (DecSrc.stub_functions): decodeStringToDataUrl
+   (aliased slices) and decodeTimeStamp (package time, float arithmetic). *)
+Theorem C17_source_refines_model : forall Orc fo, orc_agree Orc fo ->
+  forall bs F, fits_memory bs -> bytes bs -> (fuel_for bs <= F)%nat ->
+  run_source Orc fo F bs = Some (fst (cbor2json Orc bs)).
+Proof. exact many_objects_refines. Qed.
+
+(* totality of the source: it returns, with nil or an error value - never a run-time panic, never out of fuel,
+   never outside the reader contract (e.g. an UnreadByte that bufio would refuse) *)
+Theorem C17_source_total : forall Orc fo, orc_agree Orc fo ->
+  forall bs F, fits_memory bs -> bytes bs -> (fuel_for bs <= F)%nat ->
+  exists out fin, run_source Orc fo F bs = Some (out, fin) /\ (fin = FOk \/ exists k, fin = FErr k).
+Proof. exact source_total. Qed.
+
+Theorem C17_source_stream_decodes : forall Orc fo, orc_agree Orc fo -> forall es js F,
+  Forall2 (decodes Orc) es js -> fits_memory (concat es) -> bytes (concat es) -> (fuel_for (concat es) <= F)%nat ->
+  run_source Orc fo F (concat es) = Some (lines js, FOk).
+Proof. exact source_stream_decodes. Qed.
+
+Theorem C17_source_prefix_stability : forall Orc fo, orc_agree Orc fo -> forall es js e j p q F,
+  Forall2 (decodes Orc) es js -> decodes Orc e j -> e = p ++ q -> p <> [] -> q <> [] ->
+  fits_memory (concat es ++ e) -> bytes (concat es ++ e) -> (fuel_for (concat es ++ p) <= F)%nat ->
+  exists part k, run_source Orc fo F (concat es ++ p) = Some (lines js ++ part, FErr k) /\ is_eof k = true.
+Proof. exact source_stream_torn. Qed.
+
+(* function by function (the statements the top-level theorem is composed of): same value, same remaining input, same
+   push-back byte, same output; same error kind and output on an error *)
+Theorem C17_source_functions : forall Orc fo, orc_agree Orc fo ->
+  sim DecSrc.readByte CborDec.readByte /\
+  (forall n, (n < 2 ^ 63)%Z -> sim (DecSrc.readNBytes n) (CborDec.readNBytes n)) /\
+  (forall minor, sim (DecSrc.decodeIntAdditionalType minor) (CborDec.decodeIntAdditionalType minor)) /\
+  sim DecSrc.decodeInteger CborDec.decodeInteger /\
+  sim DecSrc.decodeFloat (wb <- CborDec.decodeFloat ;; PRet (fl_of wb)) /\
+  (forall nq, sim (DecSrc.decodeString nq) (CborDec.decodeString nq)) /\
+  sim DecSrc.decodeUTF8String CborDec.decodeUTF8String /\
+  sim (DecSrc.decodeTagData Orc) (CborDec.decodeTagData Orc) /\
+  sim (DecSrc.decodeSimpleFloat fo) (CborDec.decodeSimpleFloat Orc) /\
+  (forall pbs, (GoSem.len pbs < 2 ^ 62)%Z -> DecSrc.appendQuotedJSON pbs = GoSem.Ok (CborDec.appendQuotedJSON pbs)) /\
+  (forall p, DecSrc.binaryFmt p = GoSem.Ok (CborDec.binaryFmt p)) /\
+  (forall f, (Z.of_nat f < 2 ^ 62)%Z -> forall F, (f <= F)%nat ->
+     simF (DecSrc.cbor2JsonOneObject Orc fo F) (CborDec.cbor2JsonOneObject Orc f)).
+Proof.
+  intros Orc fo Ha. repeat split.
+  - exact readByte_sim.
+  - exact readNBytes_sim.
+  - exact decodeIntAT_sim.
+  - exact decodeInteger_sim.
+  - exact decodeFloat_sim.
+  - exact decodeString_sim.
+  - exact decodeUTF8String_sim.
+  - exact (decodeTagData_sim Orc).
+  - exact (decodeSimpleFloat_sim Orc fo Ha).
+  - exact SrcDecPureP.appendQuotedJSON_src.
+  - exact SrcDecPureP.binaryFmt_src.
+  - intros f Hf. exact (proj1 (rec_sim Orc fo Ha f Hf)).
+Qed.
+
+(* the translated set is what it is: a function dropping out of it (or into the stubs) breaks this *)
+Theorem C17_source_translated_set :
+  length DecSrc.translated_functions = 17%nat /\ length DecSrc.skipped_functions = 4%nat /\ length DecSrc.stub_functions = 2%nat.
+Proof. exact dec_counts. Qed.
+
+(* premises are satisfiable, and a concrete run of the translated decoder *)
+Example C17_ex_source_oracles_agree : orc_agree Orc_const fo_const.
+Proof. exact orc_agree_ex. Qed.
+Example C17_ex_source_run :
+  run_source Orc_const fo_const 100
+    [191; 97;97; 1; 97;98; 131; 1; 2; 97;120; 97;99; 250;63;192;0;0; 97;100; 217;1;7; 66; 171;205; 255; 161; 97]%N =
+  Some ([123;34;97;34;58;49;44;34;98;34;58;91;49;44;50;44;34;120;34;93;44;34;99;34;58;48;44;34;100;34;58;34;97;98;99;100;34;125;10;123]%N,
+        FErr EEofReadN).
+Proof. exact source_run_example. Qed.
+
 (* ---- non-vacuity and the fixed defects as theorems about the model ---- *)
 Definition O_none : oracle := mkoracle (fun _ => None) (fun _ => None) (fun _ => None) (fun _ _ => None).
 
@@ -149,3 +233,9 @@ Print Assumptions C17_stream_decodes.
 Print Assumptions C17_prefix_stability.
 Print Assumptions C17_cut_points.
 Print Assumptions C17_encoder_events_decode.
+Print Assumptions C17_source_refines_model.
+Print Assumptions C17_source_total.
+Print Assumptions C17_source_stream_decodes.
+Print Assumptions C17_source_prefix_stability.
+Print Assumptions C17_source_functions.
+Print Assumptions C17_source_translated_set.
